@@ -99,3 +99,55 @@ Example C08_cells :
      Some (mkExpect KNaN false false true),
      Some (mkExpect (KCopy (mkDec NaN true 7 99)) true false false)).
 Proof. vm_compute. reflexivity. Qed.
+
+(* ---------- the iterative functions: their special-value prologues (Model/Context.v: root_specials,
+   log_specials, exp_specials, pow_specials) decide every cell of the table and return at once.
+   prologue_ok c e r: the prologue returned (it did not hand over to the iteration), with a value and a
+   Condition accepted by table entry e and the error the Condition and c's traps produce.  The zero cell
+   of the roots is rounded (clamped) into the context, hence ctx_ok and the exponent-limit hypothesis. *)
+From Apd Require Import Proofs.Core Proofs.SetExponent Proofs.OpsProofs Proofs.SpecialFnProofs.
+
+Theorem C08_exp c x y e : special_table SExp (rounder_eqb (rounding c) RFloor) x y = Some e ->
+  match exp_specials c x with
+  | Some r => match rdec r with
+              | Some d => expect_ok e d (rcond r) = true /\ rerr r = ctx_go_error c (rcond r)
+              | None => False
+              end
+  | None => False
+  end.
+Proof. exact (exp_special c x y e). Qed.
+Print Assumptions C08_exp.
+
+Theorem C08_sqrt est : est_in_range est -> forall c x y e, ctx_ok c -> in_lim (Z.quot (exp x) 2) ->
+  special_table SSqrt (rounder_eqb (rounding c) RFloor) x y = Some e ->
+  prologue_ok c e (root_specials est c x 2).
+Proof. exact (sqrt_special est). Qed.
+Print Assumptions C08_sqrt.
+
+Theorem C08_cbrt est : est_in_range est -> forall c x y e, ctx_ok c -> in_lim (Z.quot (exp x) 3) ->
+  special_table SCbrt (rounder_eqb (rounding c) RFloor) x y = Some e ->
+  prologue_ok c e (root_specials est c x 3).
+Proof. exact (cbrt_special est). Qed.
+Print Assumptions C08_cbrt.
+
+Theorem C08_ln_log10 est : est_in_range est -> forall (o : sop) c x y e, o = SLn \/ o = SLog10 -> 0 <= coeff x ->
+  special_table o (rounder_eqb (rounding c) RFloor) x y = Some e ->
+  prologue_ok c e (log_specials est c x).
+Proof. exact (log_special est). Qed.
+Print Assumptions C08_ln_log10.
+
+Theorem C08_pow est : est_in_range est -> forall c x y e, 0 <= coeff x -> 0 <= coeff y ->
+  special_table SPow (rounder_eqb (rounding c) RFloor) x y = Some e ->
+  prologue_ok c e (pow_specials est c x y).
+Proof. exact (pow_special est). Qed.
+Print Assumptions C08_pow.
+
+(* non-vacuity: cells of the Pow table *)
+Example C08_pow_cells :
+  special_table SPow false (mkDec Finite true 0 0) (mkDec Finite true 1 3)     (* (-0) ** (-3E+1): 30 is even *)
+    = Some (ex_plain (KInf false))
+  /\ special_table SPow false (mkDec Infinite true 0 0) (mkDec Finite false 0 3) (* (-Inf) ** 3 *)
+    = Some (ex_plain (KInf true))
+  /\ special_table SPow false (mkDec Finite false (-1) 5) (mkDec Infinite true 0 0) (* 0.5 ** -Inf *)
+    = Some (ex_plain (KInf false)).
+Proof. vm_compute. repeat split. Qed.
